@@ -362,13 +362,13 @@ void body(V::Ctx &ctx)
     const std::string tch = "!#$%&'*+-.^_`|~";
     std::vector<std::string> methods = {"GET", "A", tch, std::string(33, 'M')};
     std::vector<std::string> targets = {"/", "http://h/p?q", "*"};
-    std::vector<std::string> versions = {" HTTP/1.1", " HTTP/2.0", " HTTP/12.1", ""};
+    std::vector<std::string> versions = {" HTTP/1.1", " HTTP/2.0", " HTTP/12.1", " HTTP/0.9", ""};
     std::vector<std::string> terms = {"\r\n", "\n"};
     std::vector<std::string> prefixes = {"", "\r\n"};
     if (!q) {
         methods.insert(methods.end(), {std::string(32, 'M'), "get", "CONNECT"});
         targets.insert(targets.end(), {"h:1", "/%41/x", "/a?b=c&d"});
-        versions.insert(versions.end(), {" HTTP/1.0", " HTTP/0.9", " HTTP/1.10"});
+        versions.insert(versions.end(), {" HTTP/1.0", " HTTP/1.10"});
         terms.push_back("\r\r\n");
         prefixes.push_back("\n");
     }
